@@ -82,6 +82,30 @@ def m_enc_u32(M, a, c, fr):
     v = deref(M, a[0]); outbuf(M, a[1]).bytes += [z3.simplify(z3.Extract(8 * i + 7, 8 * i, v)) for i in range(4)]; return []
 
 
+def m_enc_int(M, a, c, fr):
+    v = deref(M, a[0]); outbuf(M, a[1]).bytes += [z3.simplify(z3.Extract(8 * i + 7, 8 * i, v)) for i in range(v.size() // 8)]; return []
+
+
+def m_out_write(M, a, c, fr):
+    bs = deref(M, a[1])
+    xs = list(bs.elems) if isinstance(bs, ValSlice) else (bs if isinstance(bs, list) else None)
+    if xs is None: raise Inconclusive('Output::write of %r' % (bs,))
+    outbuf(M, a[0]).bytes += xs; return []
+
+
+def m_enc_compact_val(M, a, c, fr):
+    cv = deref(M, a[0]); v = cv[0] if isinstance(cv, list) else cv
+    enc_compact_u32(M, outbuf(M, a[1]), v); return []
+
+
+def m_dec_int(M, a, c, fr):
+    w = BITS[re.match(r'<(\w+) as Decode>', c).group(1)] // 8
+    i = inbuf(M, a[0])
+    if i.rem() < w: return res_err(ERR)
+    b = i.bytes[i.pos:i.pos + w]; i.pos += w
+    return res_ok(z3.simplify(z3.Concat(*reversed(b))) if w > 1 else b[0])
+
+
 def m_enc_compactref(M, a, c, fr):
     cr = deref(M, a[0])            # CompactRef(&u32)
     v = deref(M, cr[0])
@@ -232,6 +256,8 @@ def m_chain(M, a, c, fr): return a[0]
 CODEC_MODELS = [
     (r'<__Codec\w+ as (parity_scale_codec::)?Output>::push_byte', m_push_byte),
     (r'<u8 as Encode>::encode_to(::<.*>)?', m_enc_u8), (r'<u32 as Encode>::encode_to(::<.*>)?', m_enc_u32),
+    (r'<(u16|u64|u128|i8|i16|i32|i64) as Encode>::encode_to(::<.*>)?', m_enc_int), (r'<__Codec\w+ as (parity_scale_codec::)?Output>::write', m_out_write),
+    (r'<Compact<u32> as Encode>::encode_to(::<.*>)?', m_enc_compact_val), (r'<(u16|u64) as Decode>::decode(::<.*>)?', m_dec_int),
     (r"<CompactRef<'_, u32> as Encode>::encode_to(::<.*>)?", m_enc_compactref), (r"<CompactRef<'_, u32> as From<&u32>>::from", m_compactref_from),
     (r'<&?Vec<.+> as Encode>::encode_to(::<.*>)?', m_enc_vec), (r'<&?String as Encode>::encode_to(::<.*>)?', m_enc_string),
     (r'<&?(std::option::)?Option<.+> as Encode>::encode_to(::<.*>)?', m_enc_option),
